@@ -1059,6 +1059,26 @@ def check_C05(chk, tier, seed):
             line = hist_line("g", ("NEW", 272, 4, 0x80, 1, 2), [("ADD", e), ("ADDAVP", 1011, None, 0, ("L", ("oct", b"xyz")))])
             cases.append(f"W {line[2:]} {hx(100000)} 0")
             expect.append(("time", inr, t))
+    # a writer that fails ONE call with WouldBlock / TimedOut (taking nothing) after j one-octet writes and is fine afterwards: std's
+    # write_all gives up at the first such error - the encode has failed and must say so; had it carried on it would have to deliver
+    # every octet (implementation only: the model's writer has no transient errors)
+    tcases, tframes = [], []
+    for (hline, frame) in corpus[:6]:
+        body = hline[2:]
+        for j in list(range(0, 24)) + [len(frame) // 2, len(frame) - 1]:
+            for tok in ("e", "t"):
+                tcases.append(f"W {body} {hx(1 << 20)} {j + 1}" + " 1" * j + f" {tok}")
+                tframes.append(frame)
+    for c, frame, im in zip(tcases, tframes, core.run_sharded([eng.harness, "codec"], eng.prelude, tcases, timeout=600)):
+        chk.case(c, True)
+        chk.validated += 1
+        chk.count("fault:transient-error")
+        t = im.split()
+        if len(t) < 4 or t[0] != "W":
+            chk.violation("encoder did not return a result: " + short(im, 200), dict(case=c, impl=short(im)))
+        elif t[1] == "ok" and bytes.fromhex(t[3][1:]) != frame:
+            chk.violation("encoding reported success although a write call had failed (WouldBlock / TimedOut) and the writer did not receive the complete frame",
+                          dict(case=c, impl=short(im, 3000), frame=xb(frame)))
     # values a message can hold although no decoder would take them back (an E.164 address of more than 15 digits): whatever the
     # encoder decides - refuse, or write them - a success means a frame as long as its own Message Length says, every octet of it
     adef = [d for d in eng.dicts["g"].live() if d["ty"] == "addr" and d["vendor"] is None][0]
